@@ -151,6 +151,7 @@ def _run_one(args):
     faulthandler.dump_traceback_later(cap_s * 8 + 600, exit=True)
     old = _arm(cap_s)
     t0 = time.time()
+    c0 = time.process_time()
     try:
         rng = random.Random(seed)
         plan = mod.gen_plan(rng, run_index, tier, opts or {})
@@ -165,13 +166,16 @@ def _run_one(args):
         if res.get("violation") is not None or run_index % 500 < 2 or (opts and opts.get("keep_plan")):
             out["plan"] = plan
     except RunTimeout as e:
-        out["harness_error"] = "timeout: %s" % e
+        # the CPU-time cap is a budget device, not an oracle: the run is abandoned without a verdict and counted
+        # (main_check tolerates a handful per batch and turns more than that into harness trouble)
+        out["abandoned"] = "cpu-cap %ds" % cap_s
     except BaseException as e:  # noqa - a harness defect must surface as exit 2, not be lost
         out["harness_error"] = "%s: %s\n%s" % (type(e).__name__, e, traceback.format_exc()[-3000:])
     finally:
         _disarm(old)
         faulthandler.cancel_dump_traceback_later()
     out["wall_s"] = time.time() - t0
+    out["cpu_s"] = time.process_time() - c0
     return out
 
 
@@ -495,10 +499,15 @@ def main_check(prop, argv):
     # 2. seeded exploration
     opts = {"known": [e["id"] for e in known if e.get("status") == "known"]}
     results, broken, wall = run_batch(prop, seed, a.tier, n_runs, budget, cap_s=cap, opts=opts, start_index=a.start)
+    abandoned = [r for r in results if r.get("abandoned")]
+    results = [r for r in results if not r.get("abandoned")]
     harness = [r for r in results if r.get("harness_error")]
     viol = [r for r in results if r.get("violation") is not None]
     agg = mod.aggregate(results)
     agg["pinned_plans_run"] = pinned_runs
+    agg["runs_abandoned_at_cpu_cap"] = [r["run_index"] for r in abandoned]
+    agg["slowest_runs_cpu_s"] = [[r["run_index"], round(r.get("cpu_s", 0.), 1)] for r in
+                                 sorted(results, key=lambda r: -r.get("cpu_s", 0.))[:5]]
     if a.digests:
         with open(a.digests, "w") as f:
             for r in results:
@@ -525,6 +534,11 @@ def main_check(prop, argv):
         print("HARNESS-ERROR in %d run(s); first: run %d: %s" % (len(harness), harness[0]["run_index"],
                                                                  harness[0]["harness_error"]))
         rc = EXIT_HARNESS
+    if abandoned:
+        print("NOTE: %d run(s) abandoned at the CPU-time cap without a verdict: %s" % (len(abandoned), [r["run_index"] for r in abandoned][:10]))
+        if len(abandoned) > max(2, (len(results) + len(abandoned)) // 200) and rc == EXIT_OK:
+            print("HARNESS-ERROR: too many runs hit the CPU-time cap")
+            rc = EXIT_HARNESS
     if broken and rc == EXIT_OK:
         print("HARNESS-ERROR: %s" % broken)
         rc = EXIT_HARNESS
@@ -546,6 +560,8 @@ def main_check(prop, argv):
         if starved:
             print("HARNESS-ERROR: reach probes stuck at zero: %s" % starved)
             rc = EXIT_HARNESS
+    if os.environ.get("VERIF_VERBOSE"):
+        print("slowest runs (index, CPU s): %s" % agg["slowest_runs_cpu_s"])
     if not a.no_evidence and n_ok > 0:
         write_evidence(prop, a.tier, seed, agg, mod.ASSUMPTIONS, total_wall, len(viol))
     print("%s: %d runs, %d distinct non-trivial, %.1f s, exit %d" % (prop, n_ok, agg.get("distinct_nontrivial", 0),
